@@ -107,6 +107,7 @@ type Ctx struct {
 	mu        sync.Mutex
 	batchName string
 	evals     int64
+	progress  int64
 	distinct  map[uint64]struct{}
 	disjoint  int64
 	counters  map[string]int64
@@ -168,7 +169,22 @@ func (c *Ctx) Trace(mk func() (key string, payload any)) {
 func (c *Ctx) Eval(n int64) {
 	c.mu.Lock()
 	c.evals += n
+	c.progress++
 	c.mu.Unlock()
+}
+
+// Tick marks progress without counting an evaluation.
+func (c *Ctx) Tick() {
+	c.mu.Lock()
+	c.progress++
+	c.mu.Unlock()
+}
+
+// Progress is a counter that changes whenever a case finished.
+func (c *Ctx) Progress() int64 {
+	c.mu.Lock()
+	defer c.mu.Unlock()
+	return c.progress
 }
 
 func hash64(s string) uint64 {
